@@ -168,6 +168,11 @@ def dict_tree():
         ("dict-value", lambda: {Name("k"): {"inner": Opaque("v")}}),
         ("two-keys", lambda: {Name("k"): [Opaque("i1")], "times": 3}),
         ("str-value-plain", lambda: {"main_reg": var("rv", "[a-z0-9%$.]+", avoid="@m")}),
+        # a string macro in a dict VALUE: as the whole value, and inside a longer name (prefix / suffix / both)
+        ("str-value-whole", lambda: {"constant_offset": "@m"}),
+        ("str-value-inside", lambda: {"constant_offset": "-0x@m"}),
+        ("str-value-inside2", lambda: {"main_reg": "%r@mx"}),
+        ("str-value-inside-sym", lambda: {"constant_offset": var("pre", "[a-z0-9%$.-]+", avoid="@m") + "@m"}),
     ):
         log: List[Any] = []
 
@@ -203,8 +208,12 @@ def dict_tree():
                         ok = ok and r["times"] == 3
                 elif cid == "dict-value":
                     ok = isinstance(v, Applied) and isinstance(v.tree, dict) and list(v.tree.keys()) == ["inner"]
-                else:
+                elif cid == "str-value-plain":
                     ok = isinstance(v, str) and runr.ctx.table.show(str.__str__(v)) == "‹rv›"
+                else:
+                    wantv = {"str-value-whole": "BODY", "str-value-inside": "-0xBODY", "str-value-inside2": "%rBODYx",
+                             "str-value-inside-sym": "‹pre›BODY"}[cid]
+                    ok = isinstance(v, str) and runr.ctx.table.show(str.__str__(v)) == wantv
             obs.append(simple_ob(base + ":POST", func, "POST",
                                  f"[{cid}] keys and their order unchanged; every dict value and every list element is replaced by subst1 of itself "
                                  "(in order), a string value by its string substitution, other values untouched", ok, P13, detail=repr(r)[:200], witness=cid))
